@@ -1,2 +1,470 @@
 package main
-func cmdCheck(args []string) {}
+
+import (
+	"encoding/json"
+	"flag"
+	"fmt"
+	"os"
+	"path/filepath"
+	"regexp"
+	"sort"
+	"strconv"
+	"strings"
+	"time"
+)
+
+// Claims: the obligations that discharge on the unchanged tree (committed under /verif/claims).
+type Claims struct {
+	Property    string   `json:"property"`
+	Tags        string   `json:"tags"`
+	Obligations []string `json:"obligations"`
+}
+
+type KnownFinding struct {
+	Kind     string // finding / fixed
+	Property string
+	Pattern  string // obligation name pattern (may contain *)
+	Text     string
+	re       *regexp.Regexp
+	Commit   string
+}
+
+func loadKnownFindings(path string) ([]*KnownFinding, error) {
+	data, err := os.ReadFile(path)
+	if err != nil {
+		if os.IsNotExist(err) {
+			return nil, nil
+		}
+		return nil, err
+	}
+	var out []*KnownFinding
+	for _, ln := range strings.Split(string(data), "\n") {
+		ln = strings.TrimSpace(ln)
+		if ln == "" || strings.HasPrefix(ln, "#") {
+			continue
+		}
+		kf := &KnownFinding{}
+		head := ln
+		if i := strings.Index(ln, "::"); i >= 0 {
+			head, kf.Text = strings.TrimSpace(ln[:i]), strings.TrimSpace(ln[i+2:])
+		}
+		fields := strings.Fields(head)
+		if len(fields) == 0 {
+			continue
+		}
+		kf.Kind = strings.TrimSuffix(fields[0], ":")
+		for _, f := range fields[1:] {
+			switch {
+			case strings.HasPrefix(f, "property="):
+				kf.Property = f[len("property="):]
+			case strings.HasPrefix(f, "obligation="):
+				kf.Pattern = f[len("obligation="):]
+			case strings.HasPrefix(f, "case="):
+				kf.Pattern = f[len("case="):]
+			default:
+				if kf.Kind == "fixed" && kf.Commit == "" {
+					kf.Commit = f
+				}
+			}
+		}
+		if kf.Pattern != "" {
+			kf.re = regexp.MustCompile("^" + strings.ReplaceAll(regexp.QuoteMeta(kf.Pattern), `\*`, `.*`) + "$")
+		}
+		out = append(out, kf)
+	}
+	return out, nil
+}
+
+type Evidence struct {
+	PropertyID  string                 `json:"property_id"`
+	Tier        string                 `json:"tier"`
+	Seed        int                    `json:"seed"`
+	Level       string                 `json:"level"`
+	Coverage    map[string]interface{} `json:"coverage"`
+	Assumptions []string               `json:"assumptions"`
+	WallS       float64                `json:"wall_s"`
+	Violations  int                    `json:"violations"`
+}
+
+var globalAssumptions = []string{
+	"index arithmetic on Go int is mathematical (no overflow modelled)",
+	"element types other than int are abstract sorts; Go operators and math routines on them are uninterpreted symbols named after the operator/routine (sound for 'applies the right operator to the right operands'; no floating-point or wrap-around reasoning)",
+	"error values are abstracted to their dynamic type tag; message contents are not modelled",
+	"go/ssa (x/tools v0.29.0, naive form) is a faithful translation of the Go source; compiler, runtime and hardware are trusted",
+	"nil-pointer dereference is not checked; pointer receivers and pointer parameters are assumed non-nil",
+	"function values passed to kernels are pure and total (uninterpreted application)",
+	"package-level reflect.Type variables are never reassigned and denote pairwise distinct types",
+	"induction from one-step (loop step / iterator Next) contracts to whole sequences is a meta-argument outside the solver",
+	"genlib2 templates are not verified, only their current output",
+}
+
+func cmdCheck(args []string) {
+	fs := flag.NewFlagSet("check", flag.ExitOnError)
+	repo := fs.String("repo", "/repo", "repository root")
+	verif := fs.String("verif", "/verif", "verif root")
+	prop := fs.String("property", "", "property id")
+	tier := fs.String("tier", "quick", "quick|thorough")
+	update := fs.Bool("update-claims", false, "rewrite the claims file from this run")
+	level := fs.String("level", "proof", "evidence level")
+	bounded := fs.String("bounded", "", "JSON file with the result of the bounded stand-ins (merged into evidence)")
+	fs.Parse(args)
+	if *prop == "" {
+		fmt.Fprintln(os.Stderr, "need -property")
+		os.Exit(2)
+	}
+	seed := 0
+	if s := os.Getenv("VERIF_SEED"); s != "" {
+		seed, _ = strconv.Atoi(s)
+	}
+	t0 := time.Now()
+	maxRank, timeout := 4, 10
+	if *tier == "thorough" {
+		maxRank, timeout = 6, 60
+	}
+	tagSets := []string{"verif"}
+	P, err := LoadProg(*repo, tagSets[0])
+	if err != nil {
+		fmt.Printf("govc: cannot load %s: %v\n", *repo, err)
+		os.Exit(2)
+	}
+	if err := P.LoadContracts(); err != nil {
+		fmt.Printf("govc: contracts: %v\n", err)
+		os.Exit(2)
+	}
+	loadS := time.Since(t0).Seconds()
+	solv := NewSolvers(time.Duration(timeout)*time.Second, false)
+	defer solv.Close()
+
+	keys := P.keysForProperty(*prop)
+	results := P.VerifyAll(keys, VerifyOpts{MaxRank: maxRank}, solv)
+	lemmaRes := P.VerifyLemmas(*prop, maxRank, solv)
+
+	// aggregate
+	var aggs []*AggObl
+	aggByName := map[string]*AggObl{}
+	var unsupported []string
+	funcsUnder := []map[string]interface{}{}
+	totalQueries := 0
+	var trusted []string
+	for _, r := range results {
+		if r.Trusted {
+			trusted = append(trusted, shortKey(r.Key))
+			continue
+		}
+		totalQueries += len(r.Obls)
+		for _, a := range aggregate(r.Obls) {
+			aggs = append(aggs, a)
+			aggByName[a.Name] = a
+		}
+		fu := map[string]interface{}{"func": shortKey(r.Key), "mode": r.Mode, "paths": r.Paths, "file": r.File}
+		if r.Schema != "" {
+			fu["schema"] = r.Schema
+		}
+		if r.Mode == "rank" {
+			fu["ranks"] = fmt.Sprintf("0..%d", maxRank)
+		}
+		if len(r.Used) > 0 {
+			fu["callee_contracts"] = r.Used
+		}
+		if len(r.Inlined) > 0 {
+			fu["inlined_callees"] = r.Inlined
+		}
+		if r.Unsupported != "" {
+			fu["unsupported"] = r.Unsupported
+			unsupported = append(unsupported, shortKey(r.Key)+": "+r.Unsupported)
+		}
+		funcsUnder = append(funcsUnder, fu)
+	}
+	for _, a := range lemmaRes {
+		aggs = append(aggs, a)
+		aggByName[a.Name] = a
+	}
+
+	claimsPath := filepath.Join(*verif, "claims", *prop+".json")
+	if *update {
+		var names []string
+		for _, a := range aggs {
+			if a.Status == "discharged" && !strings.Contains(a.Name, "#vacuity:") {
+				names = append(names, a.Name)
+			}
+		}
+		sort.Strings(names)
+		os.MkdirAll(filepath.Dir(claimsPath), 0o755)
+		data, _ := json.MarshalIndent(Claims{Property: *prop, Tags: P.tags, Obligations: names}, "", " ")
+		os.WriteFile(claimsPath, append(data, '\n'), 0o644)
+		fmt.Printf("wrote %d claims to %s\n", len(names), claimsPath)
+	}
+	var claims Claims
+	if data, err := os.ReadFile(claimsPath); err == nil {
+		json.Unmarshal(data, &claims)
+	}
+	known, err := loadKnownFindings(filepath.Join(*verif, "known_findings.txt"))
+	if err != nil {
+		fmt.Println("govc: known_findings:", err)
+		os.Exit(2)
+	}
+	isKnown := func(name string) *KnownFinding {
+		for _, k := range known {
+			if k.Kind == "finding" && k.Property == *prop && k.re != nil && k.re.MatchString(name) {
+				return k
+			}
+		}
+		return nil
+	}
+
+	replayDir := filepath.Join(*verif, "replays", *prop)
+	os.MkdirAll(replayDir, 0o755)
+	violations := 0
+	var violationLines, knownLines []string
+	claimed := map[string]bool{}
+	discharged := 0
+	knownHit := map[*KnownFinding]int{}
+	reportViolation := func(a *AggObl, reason string) {
+		violations++
+		file := filepath.Join(replayDir, sanitize(a.Name)+".json")
+		rep := P.writeReplay(file, *prop, a, reason, solv)
+		line := fmt.Sprintf("VIOLATION property=%s replay=%s obligation=%s %s", *prop, file, a.Name, reason)
+		if !rep {
+			line += " no-failing-input-found"
+		}
+		violationLines = append(violationLines, line)
+	}
+	for _, n := range claims.Obligations {
+		claimed[n] = true
+		a := aggByName[n]
+		switch {
+		case a == nil:
+			if isKnown(n) != nil {
+				continue
+			}
+			reportViolation(&AggObl{Name: n, Status: "missing"}, "reason=obligation-not-generated (function renamed, moved out of the verified subset, or contract no longer matches)")
+		case a.Status == "discharged":
+			discharged++
+		case a.Status == "failed":
+			if k := isKnown(n); k != nil {
+				knownHit[k]++
+				continue
+			}
+			reportViolation(a, "reason=counterexample")
+		default:
+			if k := isKnown(n); k != nil {
+				knownHit[k]++
+				continue
+			}
+			reportViolation(a, "reason="+a.Status+" (discharged on the unchanged tree, not any more)")
+		}
+	}
+	// obligations never claimed: failures there are violations only if not listed as known findings
+	var notClaimed []string
+	for _, a := range aggs {
+		if claimed[a.Name] || strings.Contains(a.Name, "#vacuity:") {
+			if strings.Contains(a.Name, "#vacuity:") && a.Status == "vacuous" {
+				reportViolation(a, "reason=vacuous-contract (precondition or path condition unsatisfiable)")
+			}
+			continue
+		}
+		if a.Status == "discharged" {
+			notClaimed = append(notClaimed, a.Name+" (discharged, not in claims file)")
+			continue
+		}
+		if k := isKnown(a.Name); k != nil {
+			knownHit[k]++
+			continue
+		}
+		if a.Status == "failed" {
+			// a failing obligation that is neither claimed nor a known finding: a new violation
+			reportViolation(a, "reason=counterexample (unclaimed obligation)")
+			continue
+		}
+		notClaimed = append(notClaimed, a.Name+" ("+a.Status+")")
+	}
+	for _, k := range known {
+		if k.Kind == "finding" && k.Property == *prop && k.re != nil {
+			if knownHit[k] > 0 {
+				knownLines = append(knownLines, fmt.Sprintf("KNOWN-FINDING: property=%s %s :: %s (%d obligations)", *prop, k.Pattern, k.Text, knownHit[k]))
+			}
+		}
+	}
+
+	// bounded stand-ins (produced by the bounded harness, merged here)
+	var boundedInfo interface{}
+	if *bounded != "" {
+		if data, err := os.ReadFile(*bounded); err == nil {
+			var bi map[string]interface{}
+			if json.Unmarshal(data, &bi) == nil {
+				boundedInfo = bi
+				if vs, ok := bi["violations"].([]interface{}); ok {
+					for _, v := range vs {
+						violations++
+						violationLines = append(violationLines, fmt.Sprint(v))
+					}
+				}
+				if ks, ok := bi["known"].([]interface{}); ok {
+					for _, v := range ks {
+						knownLines = append(knownLines, fmt.Sprint(v))
+					}
+				}
+			}
+		}
+	}
+
+	// evidence
+	bySolver := map[string]interface{}{}
+	for n, s := range solv.Stats {
+		bySolver[n] = s
+	}
+	var samples []interface{}
+	for _, r := range results {
+		for _, o := range r.Obls {
+			if len(samples) < 4 && o.Query != "" && !o.Canary && o.Result == "unsat" && len(o.Query) < 6000 && (len(samples) == 0 || o.Kind == "ensures") {
+				samples = append(samples, map[string]interface{}{"obligation": o.Name, "rank": o.Rank, "path": o.Path, "verdict": o.Result, "solver": o.Solver, "smtlib": o.Query})
+			}
+		}
+	}
+	schemaCount := map[string]int{}
+	for _, r := range results {
+		if r.Schema != "" {
+			schemaCount[r.Schema]++
+		}
+	}
+	var undec, failed []string
+	for _, a := range aggs {
+		switch a.Status {
+		case "failed":
+			failed = append(failed, a.Name)
+		case "undecided":
+			undec = append(undec, a.Name)
+		}
+	}
+	cov := map[string]interface{}{
+		"obligations":              len(claims.Obligations),
+		"discharged":               discharged,
+		"checker_cmd":              fmt.Sprintf("govc check -property %s -tier %s (z3-new 5.1.0, cvc5 1.0.3, z3 4.8.12)", *prop, *tier),
+		"trusted_base":             append(trusted, "go/ssa v0.29.0 naive form", "z3 / cvc5"),
+		"functions_under_contract": funcsUnder,
+		"functions_count":          len(funcsUnder),
+		"smt_queries":              totalQueries,
+		"smt_queries_unique":       solv.Unique,
+		"by_solver":                bySolver,
+		"schemas":                  schemaCount,
+		"failed_obligations":       failed,
+		"undecided_obligations":    undec,
+		"not_claimed":              notClaimed,
+		"unsupported":              unsupported,
+		"known_findings":           knownLines,
+		"samples":                  samples,
+		"rank_bound":               maxRank,
+		"load_s":                   loadS,
+		"dropped_by_translation":   []string{"int overflow", "error message contents", "GC/finalizers", "goroutines/channels (unsupported)", "assembly (trusted stubs)", "map iteration order", "reflection beyond reflect.Type identity/Size"},
+	}
+	if boundedInfo != nil {
+		cov["bounded"] = boundedInfo
+	}
+	if *prop == "C17" {
+		cov["generated_file_coverage"] = P.fileCoverage(results, aggByName)
+	}
+	if *level == "other" {
+		cov["explanation"] = "deductive obligations over the real SSA for the functions listed; parts labelled bounded are exhaustive run-time checks to a stated bound and are not counted as proved"
+	}
+	ev := Evidence{PropertyID: *prop, Tier: *tier, Seed: seed, Level: *level, Coverage: cov, Assumptions: globalAssumptions,
+		WallS: time.Since(t0).Seconds(), Violations: violations}
+	os.MkdirAll(filepath.Join(*verif, "evidence"), 0o755)
+	data, _ := json.MarshalIndent(ev, "", " ")
+	os.WriteFile(filepath.Join(*verif, "evidence", *prop+".json"), append(data, '\n'), 0o644)
+
+	fmt.Printf("property %s tier %s: %d functions under contract, %d claimed obligations, %d discharged, %d queries (%d unique), %.1fs\n",
+		*prop, *tier, len(funcsUnder), len(claims.Obligations), discharged, totalQueries, solv.Unique, time.Since(t0).Seconds())
+	for _, u := range unsupported {
+		fmt.Println("UNSUPPORTED:", u)
+	}
+	for _, l := range knownLines {
+		fmt.Println(l)
+	}
+	for _, l := range violationLines {
+		fmt.Println(l)
+	}
+	if violations > 0 {
+		os.Exit(1)
+	}
+}
+
+// keysForProperty lists every function whose contract (hand-written or schema instance) serves the property.
+func (P *Prog) keysForProperty(prop string) []string {
+	var keys []string
+	seen := map[string]bool{}
+	var all []string
+	for k := range P.funcs {
+		if strings.HasPrefix(k, "gorgonia.org/") {
+			all = append(all, k)
+		}
+	}
+	sort.Strings(all)
+	for _, k := range all {
+		c := P.ContractFor(k)
+		if c == nil || seen[k] {
+			continue
+		}
+		for _, p := range c.Props {
+			if p == prop {
+				keys = append(keys, k)
+				seen[k] = true
+				break
+			}
+		}
+	}
+	return keys
+}
+
+func (P *Prog) fileCoverage(results []*FuncResult, aggs map[string]*AggObl) map[string]interface{} {
+	type fc struct{ total, matched, proved int }
+	byFile := map[string]*fc{}
+	unmatched := map[string][]string{}
+	isGen := func(f string) bool {
+		return strings.HasPrefix(f, "generic_") || strings.HasPrefix(f, "eng_") || f == "getset.go" || f == "array_getset.go" ||
+			f == "dense_maskcmp_methods.go" || f == "dense_generated.go" || strings.HasPrefix(f, "iterator_native") || f == "reduction_specialization.go"
+	}
+	resByKey := map[string]*FuncResult{}
+	for _, r := range results {
+		resByKey[r.Key] = r
+	}
+	for k, fn := range P.funcs {
+		if !strings.HasPrefix(k, "gorgonia.org/tensor") || fn.Blocks == nil || strings.Contains(k, "$") {
+			continue
+		}
+		f := P.fnFile[k]
+		if !isGen(f) {
+			continue
+		}
+		c := byFile[f]
+		if c == nil {
+			c = &fc{}
+			byFile[f] = c
+		}
+		c.total++
+		r := resByKey[k]
+		if r == nil {
+			unmatched[f] = append(unmatched[f], shortKey(k))
+			continue
+		}
+		c.matched++
+		ok := r.Unsupported == ""
+		for _, a := range aggregate(r.Obls) {
+			if a.Status != "discharged" {
+				ok = false
+			}
+		}
+		if ok {
+			c.proved++
+		}
+	}
+	out := map[string]interface{}{}
+	for f, c := range byFile {
+		u := unmatched[f]
+		sort.Strings(u)
+		if len(u) > 40 {
+			u = append(u[:40], fmt.Sprintf("... and %d more", len(u)-40))
+		}
+		out[f] = map[string]interface{}{"functions_total": c.total, "functions_matched": c.matched, "functions_proved": c.proved, "unmatched": u}
+	}
+	return out
+}
